@@ -32,7 +32,8 @@ Do(o) ==
   CASE o.name \in {"set", "setasync"} -> Set(o.name, o.w, o.keys[1], o.vals[1], o.ttl, o.fail)
     [] o.name = "setmulti" -> SetMulti(o.w, o.keys, o.vals, o.ttl, o.fail)
     [] o.name = "add"      -> Add(o.w, o.keys[1], o.vals[1], o.ttl, o.fail)
-    [] o.name = "get"      -> Get(o.w, o.keys, o.fail)
+    [] o.name \in {"get", "getplain"} -> Get(o.name, o.w, o.keys, o.fail)
+    [] o.name = "stop"     -> Stop(o.w)
     [] o.name = "delete"   -> Delete(o.w, o.keys[1], o.fail)
     [] o.name = "advance"  -> Advance(o.ttl)
     [] o.name = "poke"     -> Poke(o.w, o.keys[1], o.ttl)
